@@ -43,14 +43,29 @@ def main():
     sh("git apply /tmp/seeded_%s.diff && rm /tmp/seeded_%s.diff" % (sid, sid), wt)
     rc_tests, out_tests = sh("/venv/bin/python -m pytest -q -p no:cacheprovider --timeout=900 tests", wt, env)
     results = {}
+    # run the checks against the CURRENT /repo tree with the change applied (the worktree may predate later repairs of
+    # /repo, whose absence would make a check fire for an unrelated reason); fall back to the worktree if the patch
+    # does not apply any more
+    import shutil
+    import tempfile
+    target = tempfile.mkdtemp(prefix="hvseed_")
+    for d in ("httpcore", "scripts"):
+        shutil.copytree(os.path.join("/repo", d), os.path.join(target, d), ignore=shutil.ignore_patterns("__pycache__"))
+    rc_p, _ = sh(f"patch -p1 -s < {os.path.join(VERIF, 'seeded', sid, 'patch.diff')}", target)
+    applied_to = "current /repo tree + patch"
+    if rc_p != 0:
+        shutil.rmtree(target, ignore_errors=True)
+        target, applied_to = wt, "the worktree (patch no longer applies to the current tree)"
     for c in checks:
         t0 = time.time()
-        rc, out = sh(f"{VERIF}/check {c}", VERIF, dict(os.environ, HV_REPO=wt))
+        rc, out = sh(f"{VERIF}/check {c}", VERIF, dict(os.environ, HV_REPO=target))
         keys = sorted({l.strip()[4:] for l in out.splitlines() if l.strip().startswith("key=")})
         results[c] = {"exit": rc, "fired": f"VIOLATION property={c}" in out, "keys": keys[:8], "wall_s": round(time.time() - t0, 1),
                       "summary": out.strip().splitlines()[-1] if out.strip() else ""}
+    if target != wt:
+        shutil.rmtree(target, ignore_errors=True)
     meta = {
-        "id": sid, "property": prop,
+        "id": sid, "property": prop, "checks_ran_against": applied_to,
         "demo_cmd": f"cd <worktree> && PYTHONPATH=<worktree> {cmd}",
         "demo_fails_with_change": rc_with != 0, "demo_passes_without_change": rc_without == 0,
         "demo_tail_with": out_with.strip().splitlines()[-1:] , "demo_tail_without": out_without.strip().splitlines()[-1:],
